@@ -82,7 +82,7 @@ def persist_replay_rule(ctx, rid):
             if isinstance(e_, ast.Name):
                 dfs = [v_ for _, v_ in assignments_to(si, e_.id) if v_ is not None]
                 good = bool(dfs) and all(("to_pickle(" in norm(v_)) or (isinstance(v_, ast.Constant) and v_.value is None) or (isinstance(v_, ast.IfExp) and "to_pickle(" in norm(v_)) or
-                                         (isinstance(v_, ast.Call) and norm(v_.func).startswith("self.")) for v_ in dfs) and any("to_pickle(" in norm(v_) or (isinstance(v_, ast.Call) and norm(v_.func).startswith("self.")) for v_ in dfs)
+                                         (isinstance(v_, ast.Call) and (norm(v_.func).startswith("self.") or "farmer" in norm(v_))) for v_ in dfs) and any("to_pickle(" in norm(v_) or (isinstance(v_, ast.Call) and (norm(v_.func).startswith("self.") or "farmer" in norm(v_))) for v_ in dfs)
                 if not good and dfs and not any(x in norm(v_) for v_ in dfs for x in ("pickle", "farmer")):
                     pass
                 elif not good:
@@ -397,6 +397,47 @@ def fresh_settings_rule(ctx, rid):
     return rr
 
 
+def fresh_function_rule(ctx, rid):
+    """grow() takes the function of a crop from the crop's function file in every call: a per-process memo keyed by the
+    path outlives the crop (same name, same folder, another function) and re-used workers grow the previous function."""
+    from ..util import calls_transitive, is_memoised, callee_func
+    rr = ctx.rule(rid, "grow(): the crop's function file is read in the call that uses it (no memoised copy survives a new crop at the same path)", floor=1)
+    f = ctx.prog.need_func(CROP + ".grow")
+    ctx.touch(f)
+    cands = []
+    for n in walk_shallow(f.node):
+        if isinstance(n, ast.Assign) and isinstance(n.targets[0], ast.Name) and n.targets[0].id == f.positional[2] if len(f.positional) > 2 else False:
+            cands.append(n)
+    fnp = [p for p in f.params if p == "fn"]
+    need(fnp, "idiom changed: grow() has no fn parameter")
+    loads = [n for n in walk_shallow(f.node) if isinstance(n, ast.Assign) and isinstance(n.targets[0], ast.Name) and n.targets[0].id == "fn"]
+    need(loads, "anchor lost: grow() never loads the function")
+    for n in loads:
+        allc = calls_transitive(ctx, f, n.value)
+        fresh = calls_transitive(ctx, f, n.value, skip_memoised=True)
+        if CROP + ".read_from_disk" in fresh:
+            rr.ok("grow(): `%s` reads the function file in this call" % norm(n)[:60])
+        elif CROP + ".read_from_disk" in allc:
+            rr.bad(ctx.finding(rid, f, n, "grow() takes the function from a memoised loader (`%s`): the copy is keyed by the file path and kept for the life of the process, so after the crop is reaped and a new crop with another function is sown at the same "
+                               "name and folder, a re-used worker (or the same session) grows the *previous* function and its results are reaped as the new crop's" % norm(n.value)[:60], construct="function-memoised"), "fresh function")
+        elif "self" in norm(n.value) or "crop." in norm(n.value):
+            rr.ok("grow(): function taken from the crop object (`%s`)" % norm(n.value)[:50])
+        else:
+            raise AnalysisError("idiom changed: how grow() obtains the function (`%s`)" % norm(n.value)[:60])
+    # every evaluation in grow() runs that function: fn(**case) directly, or handed to the executor / a helper as `fn`
+    subs = [c for c in walk_shallow(f.node) if isinstance(c, ast.Call) and isinstance(c.func, ast.Attribute) and c.func.attr in ("submit", "apply_async", "map") and c.args]
+    for c in subs:
+        first = c.args[0]
+        if isinstance(first, ast.Name) and first.id == "fn":
+            rr.ok("grow(): `%s` hands the resolved function to the executor" % norm(c)[:50])
+        elif any(isinstance(a_, ast.Name) and a_.id == "fn" for a_ in list(c.args[1:]) + [k.value for k in c.keywords]):
+            rr.ok("grow(): `%s` passes the resolved function on" % norm(c)[:50])
+        else:
+            rr.bad(ctx.finding(rid, f, c, "on the parallel path grow() submits `%s`, which does not receive the function grow() resolved (`fn`, given by the caller or loaded for this crop): an explicitly given function is ignored there and the workers run "
+                               "whatever they load themselves, so parallel and sequential growing of one batch can record different results" % norm(c)[:60], construct="parallel-other-function"), "one function")
+    return rr
+
+
 def run(ctx):
     persist_replay_rule(ctx, "C04.R1")
     sequential_rule(ctx, "C04.R2")
@@ -408,6 +449,7 @@ def run(ctx):
     picklelib_rule(ctx, "C04.R6")
     replayable_rule(ctx, "C04.R7")
     fresh_settings_rule(ctx, "C04.R9")
+    fresh_function_rule(ctx, "C04.R10")
     from . import c11
     c11.publication_rule(ctx, "C04.R8", title="crop files (settings, function, batches, results) are published by write-temporary, close, rename: no process ever loads a partly written file")
     prog = ctx.prog
